@@ -45,8 +45,8 @@ struct alignas(64) Pair {
     // the out-of-band notification (a UDS message in Squid): messages in flight. acquire/release like the kernel hand-off it models.
     std::atomic<int> notificationsInFlight{0};
     std::atomic<bool> producerDone{false};
+    std::atomic<bool> asleep{false};                        // consumer is between "pop() said empty" and handling a notification
     long notificationsSent = 0, fullRetries = 0, sleeps = 0; // each written by one thread, read after join
-    std::vector<uint32_t> firstBad;                          // consumer only
     long popped = 0;
 };
 
@@ -84,6 +84,16 @@ void run(Ctx &ctx, const std::string &w)
                     } catch (const Ipc::OneToOneUniQueue::Full &) {
                         ++p.fullRetries;
                         sched_yield();
+                        if (fail.any()) { p.producerDone.store(true, std::memory_order_release); return; }
+                        // Deadlock test. We are the only sender and every notification we owe has been posted, so the
+                        // in-flight count can only go down. Zero now, (read afterwards) the consumer asleep, and (read after
+                        // that) the queue still full, i.e. nothing was popped since our push() threw: the consumer fell asleep
+                        // before that and is waiting for a notification that will never be sent.
+                        if (p.notificationsInFlight.load(std::memory_order_acquire) == 0 && p.asleep.load(std::memory_order_acquire) && p.q->full()) {
+                            fail("queue:lost-wakeup", "pair " + std::to_string(t / 2) + ": consumer is asleep with " + std::to_string(p.q->size()) + " item(s) queued (queue full), no notification in flight and none owed");
+                            p.producerDone.store(true, std::memory_order_release);
+                            return;
+                        }
                         if ((spins & 1023) == 1023 && std::chrono::steady_clock::now() > deadline) {
                             fail("queue:producer-starved", "queue of pair " + std::to_string(t / 2) + " stays full: its consumer made no progress for 60 s");
                             p.producerDone.store(true, std::memory_order_release);
@@ -95,14 +105,14 @@ void run(Ctx &ctx, const std::string &w)
             }
             p.producerDone.store(true, std::memory_order_release);
         } else {
-            // consumer: pops until empty, then sleeps until a notification arrives; handles it by clearSignal() and pops again
+            // consumer: pops until pop() says "empty" (which blocks the reader), then SLEEPS -- it does not look at the
+            // queue again until a notification arrives; it handles the notification by clearSignal() and pops again
             vt::Delay delay(s ^ ((uint64_t)t << 22) ^ 0xC2B2AE35, cdly);
             uint32_t expect = 1;
-            int idlePolls = 0;
-            for (long guard = 0;; ++guard) {
+            for (;;) {
                 Item it;
                 memset(&it, 0, sizeof it);
-                if (verif_canary_queue_pop(p.q, &it, p.reader)) {
+                while (verif_canary_queue_pop(p.q, &it, p.reader)) {
                     if (!itemOk(it)) { fail("queue:torn-item", "pair " + std::to_string(t / 2) + ": popped item " + std::to_string(it.id) + " fails its checksum (read while being written, or overwritten before it was read)"); return; }
                     if (it.id != expect) {
                         fail(it.id < expect ? "queue:duplicate-or-reordered" : "queue:lost-or-reordered", "pair " + std::to_string(t / 2) + ": pop #" + std::to_string(expect) + " returned item " + std::to_string(it.id));
@@ -110,28 +120,31 @@ void run(Ctx &ctx, const std::string &w)
                     }
                     ++expect;
                     ++p.popped;
-                    idlePolls = 0;
                     delay();
-                    continue;
+                    memset(&it, 0, sizeof it);
                 }
-                // pop() said "empty" and blocked us: we are asleep until a notification arrives
-                const bool done = p.producerDone.load(std::memory_order_acquire); // read BEFORE looking for notifications
-                if (p.notificationsInFlight.load(std::memory_order_acquire) > 0) {
-                    if (idlePolls >= lazy) {
-                        p.notificationsInFlight.fetch_sub(1, std::memory_order_acq_rel);
-                        p.reader->clearSignal(); // what the notification handler does before popping
-                        idlePolls = 0;
-                        continue;
+                // asleep until a notification arrives
+                p.asleep.store(true, std::memory_order_release);
+                ++p.sleeps;
+                int idlePolls = 0;
+                for (long guard = 0;; ++guard) {
+                    const bool done = p.producerDone.load(std::memory_order_acquire); // read BEFORE looking for notifications
+                    if (p.notificationsInFlight.load(std::memory_order_acquire) > 0) {
+                        if (idlePolls >= lazy) {
+                            p.asleep.store(false, std::memory_order_release); // before consuming the notification (see the producer's deadlock test)
+                            p.notificationsInFlight.fetch_sub(1, std::memory_order_acq_rel);
+                            p.reader->clearSignal(); // what the notification handler does before popping
+                            break;
+                        }
+                    } else if (done) {
+                        return; // producer finished and every notification was delivered: nothing will ever wake us again
                     }
-                } else if (done) {
-                    break; // producer finished and every notification was delivered: nothing will ever wake us again
-                }
-                if (idlePolls == 0) ++p.sleeps;
-                ++idlePolls;
-                sched_yield();
-                if ((guard & 1023) == 1023 && (fail.any() || std::chrono::steady_clock::now() > deadline)) {
-                    if (!fail.any()) fail("queue:consumer-guard", "pair " + std::to_string(t / 2) + ": consumer waited 60 s");
-                    return;
+                    ++idlePolls;
+                    sched_yield();
+                    if ((guard & 255) == 255 && (fail.any() || std::chrono::steady_clock::now() > deadline)) {
+                        if (!fail.any()) fail("queue:consumer-guard", "pair " + std::to_string(t / 2) + ": consumer waited 60 s");
+                        return;
+                    }
                 }
             }
         }
